@@ -186,6 +186,14 @@ FREE.append(dict(src="package a\n\nimport (\n\t\"fmt\"\n\t\"os\"\n)\n\n// Doc of
                  changes=["@ c1 @\n@@\n-foo(1, 2)\n+baz\n", "@ c2 @\n@@\n-import \"os\"\n\n-os.Args\n+nil\n"]))
 
 
+# what go/printer normalises when the file is written - parentheses around an operand of lower precedence, the
+# prefix of a number literal - is in the text but not in the tree a later change of the same run sees
+FREE.append(dict(src="package a\n\nfunc f() {\n\tuse(dbl(a + b))\n\tuse(dbl(c))\n}\n",
+                 changes=["@ c1 @\nvar x expression\n@@\n-dbl(x)\n+x * 2\n", "@ c2 @\nvar y expression\n@@\n-(y) * 2\n+twice(y)\n"]))
+FREE.append(dict(src="package a\n\nfunc f() {\n\tuse(mask(0XFF))\n\tuse(old(1))\n}\n",
+                 changes=["@ c1 @\nvar x expression\n@@\n-old(x)\n+renamed(x)\n", "@ c2 @\n@@\n-mask(0xFF)\n+low8()\n"]))
+
+
 def scenario(sid, files, args, stdin="", meta=None):
     return dict(id=sid, files=files, dirs=[], symlinks=[], args=args, stdin=stdin, cwd="", strace=False, meta=meta or {}, timeout_ms=20000)
 
